@@ -421,7 +421,8 @@ class SwiftTypesBackend(SwiftBaseBackend):
             list_nsnumber_type = _nsnumber_type_table.get(list_data_type.__class__)
 
             if not is_user_defined_type(list_data_type) and not list_nsnumber_type:
-                value = '(arg'
+                # nothing to map: no block was opened, so none is closed
+                return '(arg)'
             else:
                 value = '{}.map {}'.format(value,
                                            prefix)
